@@ -22,7 +22,22 @@ TOK = re.compile(r"""
 def strip_comments(s):
     s = re.sub(r"/\*.*?\*/", lambda m: re.sub(r"[^\n]", " ", m.group(0)), s, flags=re.S)
     s = re.sub(r"//[^\n]*", "", s)
-    return s
+    # conditional compilation: the configuration that is built has RBDL_USE_CASADI_MATH undefined
+    out = []; stack = []
+    for line in s.split("\n"):
+        t = line.strip()
+        if t.startswith("#"):
+            m = re.match(r"#\s*(ifdef|ifndef|if|else|elif|endif)\b\s*(.*)", t)
+            if m:
+                d, arg = m.group(1), m.group(2).strip()
+                if d == "ifdef": stack.append(arg != "RBDL_USE_CASADI_MATH")
+                elif d == "ifndef": stack.append(arg == "RBDL_USE_CASADI_MATH" or True if arg == "RBDL_USE_CASADI_MATH" else (not arg.startswith("RBDL_") or True))
+                elif d == "if": stack.append(True)
+                elif d == "else" and stack: stack[-1] = not stack[-1]
+                elif d == "endif" and stack: stack.pop()
+            out.append(""); continue
+        out.append(line if all(stack) else "")
+    return "\n".join(out)
 
 def tokenize(s):
     out = []; i = 0
@@ -244,14 +259,44 @@ class Parser:
                 return v
 
 # ---------------------------------------------------------------- statements
-def split_statements(toks):
-    out = []; cur = []; depth = 0
-    for t in toks:
-        if t[1] in "([{": depth += 1
-        if t[1] in ")]}": depth -= 1
-        if t[1] == ";" and depth == 0: out.append(cur); cur = []
-        else: cur.append(t)
-    if cur: out.append(cur)
+def match_close(toks, i, op, cl):
+    depth = 0
+    while i < len(toks):
+        if toks[i][1] == op: depth += 1
+        elif toks[i][1] == cl:
+            depth -= 1
+            if depth == 0: return i
+        i += 1
+    raise Lost("unbalanced %s" % op)
+
+def parse_stmts(toks):
+    """-> list of ('simple', toks) | ('if', cond_toks, then_stmts, else_stmts)"""
+    out = []; i = 0
+    while i < len(toks):
+        if toks[i][1] == "if":
+            j = match_close(toks, i + 1, "(", ")")
+            cond = toks[i + 2:j]
+            if toks[j + 1][1] != "{": raise Lost("if without braces")
+            k = match_close(toks, j + 1, "{", "}")
+            then_s = parse_stmts(toks[j + 2:k]); else_s = []
+            i = k + 1
+            if i < len(toks) and toks[i][1] == "else":
+                if toks[i + 1][1] == "if":
+                    rest = parse_stmts(toks[i + 1:])
+                    else_s = [rest[0]]; out.append(("if", cond, then_s, else_s)); out += rest[1:]; return out
+                if toks[i + 1][1] != "{": raise Lost("else without braces")
+                k2 = match_close(toks, i + 1, "{", "}")
+                else_s = parse_stmts(toks[i + 2:k2]); i = k2 + 1
+            out.append(("if", cond, then_s, else_s))
+        else:
+            depth = 0; j = i
+            while j < len(toks):
+                if toks[j][1] in "([{": depth += 1
+                if toks[j][1] in ")]}": depth -= 1
+                if toks[j][1] == ";" and depth == 0: break
+                j += 1
+            if j > i: out.append(("simple", toks[i:j]))
+            i = j + 1
     return out
 
 class M66Acc:
@@ -266,37 +311,77 @@ class M66Acc:
         if miss: raise Lost("SpatialMatrix entries never assigned: %s" % miss[:3])
         return "(m66of36 %s)" % " ".join(self.e[(i, j)] for i in range(6) for j in range(6))
 
+def parse_cond(toks, env, this_ty, this_term):
+    """conjunction of scalar comparisons -> Coq bool term"""
+    parts = []; cur = []
+    k = 0
+    while k < len(toks):
+        if toks[k][1] == "&" and k + 1 < len(toks) and toks[k + 1][1] == "&": parts.append(cur); cur = []; k += 2
+        else: cur.append(toks[k]); k += 1
+    parts.append(cur)
+    terms = []
+    for pt in parts:
+        idx = [i for i, t in enumerate(pt) if t[1] in ("<", ">")]
+        depth = 0; pos = None
+        for i, t in enumerate(pt):
+            if t[1] in "([": depth += 1
+            if t[1] in ")]": depth -= 1
+            if t[1] in ("<", ">") and depth == 0: pos = i
+        if pos is None: raise Lost("condition is not a comparison")
+        L = Parser(pt[:pos], env, this_ty, this_term); a = L.expr()
+        R = Parser(pt[pos + 1:], env, this_ty, this_term); b = R.expr()
+        if a[0] != "sc" or b[0] != "sc" or L.i != pos or R.i != len(pt) - pos - 1: raise Lost("comparison operands")
+        terms.append("(oltb O %s %s)" % ((a[1], b[1]) if pt[pos][1] == "<" else (b[1], a[1])))
+    t = terms[0]
+    for x in terms[1:]: t = "(andb %s %s)" % (t, x)
+    return t
+
+import copy
 def translate_body(body, params, this_ty, this_term, ret_ty, outparam=None):
     """returns Coq term (with let-bindings) of type ret_ty"""
-    env = dict(params); lets = []; acc = {}      # acc: name -> M66Acc / m43 list / rbi dict
     fresh = [0]
-    def bind(name, val):
-        ty, t = val
-        if ty in ("m43", "v4"): env[name] = val; return
-        nm = "%s_%d" % (re.sub(r"\W", "", name), fresh[0]); fresh[0] += 1
-        lets.append((nm, t)); env[name] = (ty, nm)
-    if outparam:
-        acc[outparam] = M66Acc()
-    result = None
-    for st in split_statements(tokenize(body)):
-        if not st: continue
-        P = Parser(st, env, this_ty, this_term)
-        w = [x[1] for x in st]
+    want = "rbi" if ret_ty == "rbi_this" else ret_ty
+    def finish(env, acc):
+        if ret_ty == "rbi_this":
+            a = acc.get("__this", {})
+            if set(a) != set(RBI_ORDER): raise Lost("members not all assigned")
+            return "(mkRBI %s)" % " ".join(a[k][1] for k in RBI_ORDER)
+        if outparam: return acc[outparam].term()
+        raise Lost("no return")
+    def tr(stmts, env, acc):
+        if not stmts: return finish(env, acc)
+        st = stmts[0]; rest = stmts[1:]
+        if st[0] == "if":
+            c = parse_cond(st[1], env, this_ty, this_term)
+            t1 = tr(st[2] + rest, dict(env), copy.deepcopy(acc))
+            t2 = tr(st[3] + rest, dict(env), copy.deepcopy(acc))
+            return "(if %s then\n    %s\n    else\n    %s)" % (c, t1, t2)
+        toks = st[1]
+        binds = []
+        def bind(name, val):
+            ty, t = val
+            if ty in ("m43", "v4"): env[name] = val; return
+            nm = "%s_%d" % (re.sub(r"\W", "", name), fresh[0]); fresh[0] += 1
+            binds.append((nm, t)); env[name] = (ty, nm)
+        def wrap(t):
+            for nm, v in reversed(binds): t = "let %s := %s in\n    %s" % (nm, v, t)
+            return t
+        P = Parser(toks, env, this_ty, this_term)
+        w = [x[1] for x in toks]
         if w[0] == "return":
             P.i = 1
-            if len(st) == 2 and w[1] in acc:
+            if len(toks) == 2 and w[1] in acc:
                 a = acc[w[1]]
                 if isinstance(a, M66Acc): result = ("m66", a.term())
-                elif isinstance(a, dict):
-                    result = ("rbi", "(mkRBI %s)" % " ".join(a[k][1] for k in RBI_ORDER))
+                elif isinstance(a, dict): result = ("rbi", "(mkRBI %s)" % " ".join(a[k][1] for k in RBI_ORDER))
                 else: raise Lost("return of accumulator")
             else:
                 result = P.expr()
-                if P.i != len(st): raise Lost("trailing tokens after return")
-            break
-        # declarations
-        if w[0] == "Math" and w[1] == "::": st = st[2:]; w = w[2:]; P = Parser(st, env, this_ty, this_term)
-        if w[0] in TYPES and len(w) >= 2 and st[1][0] == "id":
+                if P.i != len(toks): raise Lost("trailing tokens after return")
+            if result[0] != want: raise Lost("return type %s, expected %s" % (result[0], want))
+            return result[1]
+        if w[0] == "Math" and w[1] == "::": toks = toks[2:]; w = w[2:]; P = Parser(toks, env, this_ty, this_term)
+        if w[0] in TYPES and len(w) >= 2 and toks[1][0] == "id":
             ty = TYPES[w[0]]; P.i = 1
             while True:
                 name = P.next()[1]
@@ -315,9 +400,8 @@ def translate_body(body, params, this_ty, this_term, ret_ty, outparam=None):
                     else: env[name] = None
                 if P.peek() == ",": P.i += 1; continue
                 break
-            if P.i != len(st): raise Lost("trailing tokens in declaration")
-            continue
-        # assignments
+            if P.i != len(toks): raise Lost("trailing tokens in declaration")
+            return wrap(tr(rest, env, acc))
         name = w[0]
         if name in acc and isinstance(acc[name], M66Acc):
             a = acc[name]
@@ -328,47 +412,37 @@ def translate_body(body, params, this_ty, this_term, ret_ty, outparam=None):
                 if v[0] != "sc": raise Lost("m66 elem type")
                 a.set(i, j, v[1])
             elif w[1] == "." and w[2] == "block":
-                # .block<3,3>(i,j) = expr
                 k = w.index("(", 3); i, j = int(w[k + 1]), int(w[k + 3])
                 if w[k + 5] != "=": raise Lost("block assign")
                 P.i = k + 6; v = P.expr()
                 if v[0] != "m3": raise Lost("block type")
-                nm = "blk_%d" % fresh[0]; fresh[0] += 1; lets.append((nm, v[1]))
+                nm = "blk_%d" % fresh[0]; fresh[0] += 1; binds.append((nm, v[1]))
                 a.setblock(i, j, nm)
             else: raise Lost("m66 statement")
-            if P.i != len(st): raise Lost("trailing tokens")
-            continue
-        if name in acc and isinstance(acc[name], list):     # m43 element
+            if P.i != len(toks): raise Lost("trailing tokens")
+            return wrap(tr(rest, env, acc))
+        if name in acc and isinstance(acc[name], list):
             i, j = int(w[2]), int(w[4]); P.i = 7; v = P.expr()
             acc[name][i * 3 + j] = v[1]
             if all(x is not None for x in acc[name]): env[name] = ("m43", acc[name])
-            continue
-        if name in acc and isinstance(acc[name], dict) and w[1] == ".":     # result.m = ...
-            P.i = 4; v = P.expr(); acc[name][w[2]] = v; continue
-        # member assignment on this (createFromMatrix)
+            return tr(rest, env, acc)
+        if name in acc and isinstance(acc[name], dict) and w[1] == ".":
+            P.i = 4; v = P.expr(); acc[name][w[2]] = v; return tr(rest, env, acc)
         if this_ty == "rbi" and name in MEMBERS["rbi"] and ret_ty == "rbi_this":
             if w[1] == "=":
                 P.i = 2; v = P.expr(); acc.setdefault("__this", {})[name] = v
             elif w[1] == "." and w[2] == "set":
                 P.i = 3; a = P.args(); acc.setdefault("__this", {})[name] = ("v3", "(mkV3 %s)" % " ".join(x[1] for x in a))
             else: raise Lost("member statement")
-            continue
-        if name in env and w[1] == "=":                     # plain re-assignment of a local
+            return tr(rest, env, acc)
+        if name in env and w[1] == "=":
             P.i = 2; v = P.expr(); bind(name, v)
-            if P.i != len(st): raise Lost("trailing tokens")
-            continue
+            if P.i != len(toks): raise Lost("trailing tokens")
+            return wrap(tr(rest, env, acc))
         raise Lost("statement not understood: %s" % " ".join(w[:8]))
-    if ret_ty == "rbi_this":
-        a = acc.get("__this", {})
-        if set(a) != set(RBI_ORDER): raise Lost("members not all assigned")
-        result = ("rbi", "(mkRBI %s)" % " ".join(a[k][1] for k in RBI_ORDER)); ret_ty = "rbi"
-    if outparam:
-        result = ("m66", acc[outparam].term())
-    if result is None: raise Lost("no return")
-    if result[0] != ret_ty: raise Lost("return type %s, expected %s" % (result[0], ret_ty))
-    t = result[1]
-    for nm, v in reversed(lets): t = "let %s := %s in\n    %s" % (nm, v, t)
-    return t
+    acc0 = {}
+    if outparam: acc0[outparam] = M66Acc()
+    return tr(parse_stmts(tokenize(body)), dict(params), acc0)
 
 # ---------------------------------------------------------------- function table
 def find_body(src, pattern, start=0):
